@@ -719,6 +719,48 @@ func main() {
 			check(c, orb.Collection{orb.Collection{b}, b})
 		}
 	})
+	// the one entry point that takes two geometries: every ordered pair of kinds (three kinds - ring, polygon, bound -
+	// share the GeoJSON type "Polygon", so a dispatch on that name alone meets a value of another Go type)
+	sq := orb.Ring{{0, 0}, {2, 0}, {2, 2}, {0, 2}, {0, 0}}
+	pairMenu := []orb.Geometry{
+		nil,
+		orb.Point{0, 0}, orb.Point{2, 2},
+		orb.MultiPoint{{0, 0}, {2, 2}}, orb.MultiPoint{}, orb.MultiPoint(nil),
+		orb.LineString(sq), orb.LineString{}, orb.LineString(nil),
+		orb.MultiLineString{orb.LineString(sq)}, orb.MultiLineString{}, orb.MultiLineString(nil),
+		sq, orb.Ring{}, orb.Ring(nil),
+		orb.Polygon{sq}, orb.Polygon{}, orb.Polygon(nil),
+		orb.MultiPolygon{{sq}}, orb.MultiPolygon{}, orb.MultiPolygon(nil),
+		orb.Collection{sq}, orb.Collection{orb.Polygon{sq}}, orb.Collection{}, orb.Collection(nil),
+		sq.Bound(), orb.Bound{},
+	}
+	r.Explore("kind-pairs", fmt.Sprintf("every ordered pair of %d values (nil interface; each of the 9 kinds filled, empty and as a typed nil; the same square as line, ring, polygon, bound): orb.Equal returns, agrees with structural equality, also for the pair wrapped in collections", len(pairMenu)), mc.Opts{MaxDev: -1}, func(c *mc.Ctx) {
+		a, b := pairMenu[c.Choose(len(pairMenu))], pairMenu[c.Choose(len(pairMenu))]
+		desc := fmt.Sprintf("%T %v, %T %v", a, a, b, b)
+		for wrap := 0; wrap < 3; wrap++ {
+			x, y := a, b
+			switch wrap {
+			case 1:
+				x, y = orb.Collection{a}, orb.Collection{b}
+			case 2:
+				x, y = orb.Collection{orb.Point{1, 1}, orb.Collection{a}}, orb.Collection{orb.Point{1, 1}, orb.Collection{b}}
+			}
+			res, pan := try(func() interface{} { return orb.Equal(x, y) })
+			if pan != "" {
+				c.Failf("panic:.Equal:kind-pair", "orb.Equal(%s) (wrapping %d) panicked: %s", desc, wrap, pan)
+				continue
+			}
+			if a == nil || b == nil {
+				continue // the nil interface has no kind; only termination is required
+			}
+			if want := refgeom.Equal(x, y); res.(bool) != want {
+				c.Failf("equal-kind-pair", "orb.Equal(%s) (wrapping %d) = %v, structural equality is %v", desc, wrap, res, want)
+			}
+		}
+		if a != nil && b != nil && fmt.Sprintf("%T", a) != fmt.Sprintf("%T", b) {
+			c.NonTrivial()
+		}
+	})
 	// multi-geometries as the combination of their members at map scale (the grammar above has coordinates in
 	// [-2,3], where every tile cover is a single tile): members that are disjoint, touching, overlapping, nested
 	members := []orb.Polygon{
